@@ -22,6 +22,7 @@ CONSTANTS
   MalformedRefused = TRUE
   ZeroAsAbsent <- MCNone
   MaxPending = 2
+  MalformedMoves = FALSE
   ClassEveryVersion = FALSE
   MaxSteps = 16
   SuccessionChecked = TRUE
